@@ -2656,7 +2656,11 @@ def _o_psbt_musig2(w):  # noqa: PLR0911, PLR0912
             pin = psbt.inputs[0]
             pin.musig2_participant_pub_keys.clear()
             pin.taproot_hd_key_paths.clear()
-            pks = [musig2.individual_pub_key(d) for d in prvs]
+            # the participant LIST may name a key several times (A,A,B / A,B,A / all equal): the psbt files one nonce and
+            # one partial signature per KEY, the session counts each once per position
+            plist = w.get("plist") or list(range(len(prvs)))
+            signer_pks = [musig2.individual_pub_key(d) for d in prvs]
+            pks = [signer_pks[i] for i in plist]
             agg = psbt_musig2.add_participant_pub_keys(pin, pks, sort=bool(w["sort"]))
             filed = pin.musig2_participant_pub_keys[agg]
             if filed != (musig2.key_sort(pks) if w["sort"] else pks):
@@ -2668,6 +2672,18 @@ def _o_psbt_musig2(w):  # noqa: PLR0911, PLR0912
                 pin.taproot_internal_key = agg[1:]
                 pin.taproot_merkle_root = merkle
                 out_key = musig2.key_agg_and_tweak(filed, [tagged_hash(b"TapTweak", agg[1:] + merkle)], [True]).x_only_pub_key
+            elif w["mode"] == "derived":
+                # BIP328: the internal key is derived from the aggregate key (PLAIN tweaks), then BIP341's x-only tweak
+                from btclib.bip32 import BIP32KeyOrigin  # noqa: PLC0415
+                merkle = bytes.fromhex(w["merkle"])
+                path = [int(x) for x in w["path"]]
+                plain = psbt_musig2.pub_key_derivation_tweaks(agg, psbt_musig2.BIP328_CHAIN_CODE, path)
+                internal = musig2.key_agg_and_tweak(filed, plain, [False] * len(plain)).x_only_pub_key
+                pin.taproot_internal_key = internal
+                pin.taproot_merkle_root = merkle
+                pin.taproot_hd_key_paths[internal] = ([], BIP32KeyOrigin(hash160(agg)[:4], path))
+                out_key = musig2.key_agg_and_tweak(
+                    filed, [*plain, tagged_hash(b"TapTweak", internal + merkle)], [False] * len(plain) + [True]).x_only_pub_key
             else:
                 out_key = agg[1:]
             pin.witness_utxo = TxOut(pin.witness_utxo.value, ScriptPubKey(b"\x51\x20" + out_key))
@@ -2683,7 +2699,7 @@ def _o_psbt_musig2(w):  # noqa: PLR0911, PLR0912
                 secs = [psbt_musig2.nonce_gen(psbt, 0, d, agg) for d in prvs]
                 psbt = _travel(psbt)
             if len(psbt.inputs[0].musig2_pub_nonces) != len(prvs):
-                return False, f"{len(psbt.inputs[0].musig2_pub_nonces)} public nonces for {len(prvs)} signers"
+                return False, f"{len(psbt.inputs[0].musig2_pub_nonces)} public nonces for {len(prvs)} distinct signer keys"
             # -- Signers, round 2
             if w["combine"]:
                 copies = [copy.deepcopy(psbt) for _ in prvs]
@@ -2696,7 +2712,7 @@ def _o_psbt_musig2(w):  # noqa: PLR0911, PLR0912
                 psbt = _travel(psbt)
             if any(bytes(sn[:64]) != bytes(64) for sn in secs):
                 return False, "partial_sign left a secnonce unspent"
-            for pk in pks:
+            for pk in signer_pks:
                 if not psbt_musig2.partial_sig_verify(psbt, 0, pk, agg):
                     return False, f"partial_sig_verify refuses the honest partial signature of {pk.hex()}"
             # -- an altered partial signature is noticed by the Finalizer
@@ -2721,7 +2737,7 @@ def _o_psbt_musig2(w):  # noqa: PLR0911, PLR0912
             verify_transaction(spent, tx)
         except Exception as e:  # noqa: BLE001
             return False, f"BIP373 session raised {type(e).__name__}: {str(e)[:140]}"
-    return True, f"{len(prvs)} signers, {w['mode']} key"
+    return True, f"{len(prvs)} signer keys in {len(pks)} positions, {w['mode']} key"
 
 
 def _sp_psbt_build(inputs, outpoints, outs):
@@ -2916,20 +2932,41 @@ _SP_PSBT_FORCED = [
 ]
 
 
+# participant lists (indices into the distinct signer keys) every run starts with: A,A,B in its three orders, all
+# equal (two and three times), A,B,A,B, and a plain A,B,C
+_MUSIG_PSBT_PLISTS = [(0, 0, 1), (0, 1, 0), (1, 0, 0), (0, 0), (0, 0, 0), (0, 1, 0, 1), (0, 1, 2), (0, 1, 1), (1, 1, 0)]
+
+
 # ---- psbt: generators/run ------------------------------------------------------------------------------
 def run_psbt(ctx):
     rng = ctx.rng
     for tag, serving in backends():
         n = ctx.n(12, 200) if serving else max(2, ctx.n(12, 200) // 3)
-        for i in range(n):
+        forced = 3 * len(_MUSIG_PSBT_PLISTS)  # every forced participant list under each of the three tweak shapes
+        for i in range(n + forced):
             k = (2, 3)[i % 2] if i < 4 else rng.choice([1, 2, 2, 3, 3, 4])
             prvs = []
             while len(prvs) < k:  # distinct keys: a psbt files nonces and partial signatures by participant key
                 d = g_prv(rng)
                 if d not in prvs and N - d not in prvs:
                     prvs.append(d)
+            # participant lists with a key named several times, every order of them (A,A,B / A,B,A / B,A,A / all equal ...)
+            if i < forced:
+                plist = list(_MUSIG_PSBT_PLISTS[i // 3])
+                prvs = prvs[:max(plist) + 1]
+                while len(prvs) <= max(plist):
+                    prvs.append(g_prv(rng))
+            elif rng.random() < 0.4:
+                plist = list(range(len(prvs))) + [rng.randrange(len(prvs)) for _ in range(rng.choice([1, 1, 2]))]
+                rng.shuffle(plist)
+            else:
+                plist = list(range(len(prvs)))
+            ctx.count("psbt.musig2.repeated_positions", str(len(plist) - len(set(plist))))
+            mode = ("output", "internal", "derived")[i % 3] if i < forced else rng.choice(["output", "internal", "derived"])
+            ctx.count("psbt.musig2.mode", mode)
             ctx.check("psbt.musig2_roles",
-                      {"prvs": prvs, "mode": ("output", "internal")[(i // 2) % 2] if i < 4 else rng.choice(["output", "internal"]),
+                      {"prvs": prvs, "plist": plist, "mode": mode,
+                       "path": [rng.randrange(2**31) for _ in range(rng.choice([1, 2, 3]))],
                        "merkle": rng.choice(["", common.rand_bytes(rng, 32).hex()]), "sort": rng.random() < 0.5,
                        "combine": rng.random() < 0.5, "alt": rng.randrange(4), "bit": rng.randrange(256), "serving": serving})
         sp_lines = []
